@@ -32,6 +32,8 @@ def gen(rng, n_cases):
                "grid": [None, 0.5, 0.1][rng.randint(3)], "shift": float(rng.choice([-1.0, 0.0, 1.0, 3.0])),
                "warm": bool(rng.randint(3) == 0), "shared_default": bool(rng.randint(2)),
                "mode": ["normal", "normal", "normal", "off-none", "inplace"][rng.randint(5)],
+               # offspring whose objective is undefined (NaN) where they landed: never "strictly better" than anything
+               "nan_off": [int(i) for i in np.nonzero(rng.random_sample(n) < 0.4)[0]] if rng.randint(5) == 0 else [],
                "seed": int(rng.randint(2**31 - 1))}
 
 
@@ -51,7 +53,8 @@ def run(case, replay=None):
     from pymoo.core.evaluator import Evaluator
     from pymoode.survival.replacement import ImprovementReplacement
     cfgk = ("n_ieq", "n_eq", "pseed", "grid", "shift", "warm", "shared_default", "seed")
-    rec = Record(NAME, dict({k: case[k] for k in cfgk}, int_pop=bool(case.get("int_pop")), cv_eps=float(case.get("cv_eps") or 0.0)), {"X": np.array(case["X"], dtype=float), "Xo": np.array(case["Xo"], dtype=float)})
+    case = dict(case, nan_off=list(case.get("nan_off") or []))
+    rec = Record(NAME, dict({k: case[k] for k in cfgk}, int_pop=bool(case.get("int_pop")), cv_eps=float(case.get("cv_eps") or 0.0), nan_off=list(case.get("nan_off") or [])), {"X": np.array(case["X"], dtype=float), "Xo": np.array(case["Xo"], dtype=float)})
     mode = case.get("mode", "normal")
     rec.cfg["mode"] = mode
     if mode == "single":
@@ -67,6 +70,13 @@ def run(case, replay=None):
     off = Population.new("X", Xo.copy())
     Evaluator().eval(prob, pop)
     Evaluator().eval(prob, off)
+    if case.get("nan_off") and mode != "single" and not prob.has_constraints():
+        # (unconstrained problems only: a NaN-objective offspring that legitimately enters by becoming feasible would leave
+        # the best-first order of the population undefined)
+        for i in case["nan_off"]:
+            if i < len(off):
+                off[i].F = np.array([np.nan])
+        rec.tags.add("nan-objective-offspring")
     if case.get("cv_eps"):
         for P in (pop, off):
             for ind in P:
